@@ -320,7 +320,7 @@ func runC19Stress(args []string) error {
 		}
 		s := &c19Stress{n: n, svc: n.svc, to: n.to}
 		stresses = append(stresses, s)
-		workers := []func(*Rng){s.starter, s.events, s.events, s.events, s.rpc, s.policyOps, s.miner, func(r *Rng) { s.restarter(r, cfg[0]) }}
+		workers := []func(*Rng){s.starter, s.starter, s.events, s.events, s.events, s.rpc, s.policyOps, s.miner, func(r *Rng) { s.restarter(r, cfg[0]) }}
 		for _, w := range workers {
 			wg.Add(1)
 			rr := NewRng(r.U64())
